@@ -1175,8 +1175,18 @@ func (p *proposalShard) takeProposal(clientID uint64,
 }
 
 func (p *proposalShard) committed(clientID uint64, seriesID uint64, key uint64) {
-	if ps := p.borrowProposal(clientID, seriesID, key, p.getTick()); ps != nil {
-		ps.committed()
+	now := p.getTick()
+	// notify while holding the lock, otherwise the request could be completed,
+	// released and reused by another goroutine before the notification is sent
+	p.mu.Lock()
+	defer p.mu.Unlock()
+	if p.stopped {
+		return
+	}
+	if ps, ok := p.pending[key]; ok && ps.deadline >= now {
+		if ps.clientID == clientID && ps.seriesID == seriesID {
+			ps.committed()
+		}
 	}
 }
 
